@@ -175,9 +175,9 @@ def handleDisp (st : DispSt) : List String → Option (DispSt × String)
       let a ← (parseList after ",").mapM parseNat
       some (st, toString (Sif.Spec.C20.txSupplyOK b a))
   | ["chk", "c11.claims", _tag, claims, paidRecs] => do
-      let claims := (parseList ((← stripPrefix "claims=" claims)) ";").map fun k => (k.toList, ())
+      let keys := (parseList ((← stripPrefix "claims=" claims)) ";").map String.toList
       let paid ← parseStore (← stripPrefix "paid=" paidRecs)
-      some (st, toString (keysNodup claims && claimsDeleted claims (paid.map (·.2))))
+      some (st, toString (claimsPerAccountOK canonAddr keys (paid.map (·.2))))
   | _ => none
 
 end Sif.Drv
